@@ -27,14 +27,12 @@ RB = ["parsec_dtd_insert_task", "parsec_execute_and_come_back", "__parsec_dtd_ta
       "parsec_dtd_tile_new_dc_data_key", "parsec_dtd_tile_new_dc_data_of", "parsec_dtd_tile_new_dc_data_of_key", "parsec_dtd_tile_new_dc_key_to_string",
       "parsec_dtd_tile_new_dc_rank_of", "parsec_dtd_tile_new_dc_rank_of_key", "parsec_dtd_tile_new_dc_vpid_of", "parsec_dtd_tile_new_dc_vpid_of_key",
       "parsec_dtd_taskpool_supports_device_type", "set_deps_for_flush_task"]
-# struct-hack patch: trailing flow storage reached by char* arithmetic -> typed member of the harness task object
-PATCHES = [(INT, r"#define TASK_FLOW_OF\(TASK, INDEX\) .*", "#define TASK_FLOW_OF(TASK, INDEX) (&((struct vp_vtask_s *)(TASK))->f[(INDEX)])")]
 UF = {"parsec_atomic_lock": 2, "made_sure_nextinline_is_null": 2, "release_ownership_of_data": 2}
 
 def queries(ctx):
     qs = []
     qs.append(Q("lookup_again_iff", ["lookup.c"], unwind=7, unwind_fn=UF, units=UNITS, object_bits=12, timeout=600,
-                remove_bodies=RB, patches=PATCHES,
+                remove_bodies=RB,
                 info={"symbolic": ["number of flows 0..3", "per flow: access mode in {INPUT,OUTPUT,INOUT,ATOMIC_WRITE}, all other op bits, copy absent / copy 0 / copy 1", "reader counts 0..2^20 of both copies"],
                       "functions": ["data_lookup_of_dtd_task", "parsec_dtd_data_copy_reader_count", "parsec_dtd_create_and_initialize_task"],
                       "stubs": STUBS, "bounds": {"flows": 3, "copies": 2}}))
@@ -43,7 +41,7 @@ def queries(ctx):
         qs.append(Q("chain_%s_%s_r%d%s" % (o0, o1, rmax, "_reg%d" % region if region else ""), ["chain.c"],
                     defs=["OPW0=%s" % ops[o0], "OPW1=%s" % ops[o1], "RMAX=%d" % rmax, "REGION=%d" % region],
                     unwind=7, unwind_fn=dict(UF, parsec_dtd_ordering_correctly=7), units=UNITS, object_bits=12, timeout=1800,
-                    remove_bodies=RB, patches=PATCHES, tiers=tiers, slow=slow,
+                    remove_bodies=RB, tiers=tiers, slow=slow,
                     info={"symbolic": ["number of readers r in 0..%d" % rmax, "second writer present or not",
                                        "moment p in 0..r+1 at which the first writer executes relative to the later insertions (each later task is linked behind a live or an already released chain)",
                                        "completion order of the readers"],
